@@ -1,28 +1,36 @@
 (* Model/NestingRun.v — judging one correspondence case inside the kernel's VM.
    For an abstract file, a language and a list of (limit, implementation output) the harness
    gets back, per limit:  [impl = spec ; model ideal = spec ; impl = model q for each candidate q]. *)
-From TL Require Import Lib.Base Lib.GenTypes Gen.NestingGen Model.Skel Model.Nesting.
+From TL Require Import Lib.Base Lib.GenTypes Gen.NestingGen Model.Skel Model.Nesting Model.NestingDisc.
 
 Definition with_flag (i : nat) (q : nquirks) : nquirks :=
+  let '(Build_nquirks a b c d e f) := q in
   match i with
-  | 0 => Build_nquirks false (q_py_table_from_code q) (q_ts_elseif_nests q) (q_rs_elseif_nests q) (q_rs_table_from_code q)
-  | 1 => Build_nquirks (q_py_start_from_code q) false (q_ts_elseif_nests q) (q_rs_elseif_nests q) (q_rs_table_from_code q)
-  | 2 => Build_nquirks (q_py_start_from_code q) (q_py_table_from_code q) false (q_rs_elseif_nests q) (q_rs_table_from_code q)
-  | 3 => Build_nquirks (q_py_start_from_code q) (q_py_table_from_code q) (q_ts_elseif_nests q) false (q_rs_table_from_code q)
-  | _ => Build_nquirks (q_py_start_from_code q) (q_py_table_from_code q) (q_ts_elseif_nests q) (q_rs_elseif_nests q) false
+  | 0 => Build_nquirks false b c d e f
+  | 1 => Build_nquirks a false c d e f
+  | 2 => Build_nquirks a b false d e f
+  | 3 => Build_nquirks a b c false e f
+  | 4 => Build_nquirks a b c d false f
+  | _ => Build_nquirks a b c d e false
   end.
 
 (* candidates: the claimed vector, the claimed vector with one flag switched off, the ideal *)
-Definition candidates (q : nquirks) : list nquirks := q :: map (fun i => with_flag i q) [0;1;2;3;4] ++ [ideal].
+Definition candidates (q : nquirks) : list nquirks := q :: map (fun i => with_flag i q) [0;1;2;3;4;5] ++ [ideal].
 
 Definition same (a b : list nrep) : bool := ms_eqb nrep_eqb a b.
 
 Definition judge (q : nquirks) (l : lang) (file : list tree) (runs : list (nat * list nrep)) : list (list bool) :=
   map (fun r => let '(limit, impl) := r in
          same impl (spec_report limit file)
-         :: same (report l ideal limit file) (spec_report limit file)
-         :: map (fun c => same impl (report l c limit file)) (candidates q))
+         :: same (report_d l ideal limit file) (spec_report limit file)
+         :: map (fun c => same impl (report_d l c limit file)) (candidates q))
       runs.
+
+(* the limit chain: for a nesting section, an optional command-line value and a language name the harness sends
+   what the code resolved; answer [impl = documented precedence ; model = documented precedence ; impl = model] *)
+Definition judge_limit (s : nsection) (cli : option nat) (language : string) (impl : nat) : list bool :=
+  [impl =? spec_limit s cli language; effective_limit s cli language =? spec_limit s cli language;
+   impl =? effective_limit s cli language].
 
 Definition depths (q : nquirks) (l : lang) (file : list tree) : list (nat * nat) :=
   map (fun f => (doc_depth (fn_body f),
